@@ -28,6 +28,7 @@ func (dg *defaultGrowerPipeline) grow(ctx context.Context, roots <-chan *Node) (
 
 	go func() {
 		defer func() {
+			verifPoint("grow.close", 0, "")
 			close(nodes)
 			close(errc)
 		}()
@@ -45,22 +46,33 @@ func (dg *defaultGrowerPipeline) grow(ctx context.Context, roots <-chan *Node) (
 
 func (dg *defaultGrowerPipeline) worker(ctx context.Context, wg *sync.WaitGroup, roots <-chan *Node, nodes chan<- *Node, errc chan<- error) {
 	defer wg.Done()
+	vid := verifStart("grow")
+	defer verifPoint("grow.exit", vid, "")
 	for {
+		verifPoint("grow.recv.pre", vid, "")
 		select {
 		case <-ctx.Done():
+			verifPoint("grow.recv.ctx", vid, "")
 			return
 		case root, ok := <-roots:
 			if !ok {
+				verifPoint("grow.recv.closed", vid, "")
 				return
 			}
+			verifPoint("grow.recv.post", vid, verifName(root))
 			if err := dg.assemble(root); err != nil {
+				verifPoint("grow.errsend.pre", vid, verifName(root))
 				errc <- err
+				verifPoint("grow.errsend.post", vid, verifName(root))
 				return
 			}
+			verifPoint("grow.send.pre", vid, verifName(root))
 			select {
 			case <-ctx.Done():
+				verifPoint("grow.send.ctx", vid, verifName(root))
 				return
 			case nodes <- root:
+				verifPoint("grow.send.post", vid, verifName(root))
 			}
 		}
 	}
@@ -82,22 +94,32 @@ func (*nopGrowerPipeline) grow(ctx context.Context, roots <-chan *Node) (<-chan 
 
 	go func() {
 		defer func() {
+			verifPoint("grow.close", 0, "")
 			close(nodes)
 			close(errc)
 		}()
+		vid := verifStart("grow")
+		defer verifPoint("grow.exit", vid, "")
 
 	BREAK:
 		for {
+			verifPoint("grow.recv.pre", vid, "")
 			select {
 			case <-ctx.Done():
+				verifPoint("grow.recv.ctx", vid, "")
 				return
 			case root, ok := <-roots:
 				if !ok {
+					verifPoint("grow.recv.closed", vid, "")
 					break BREAK
 				}
+				verifPoint("grow.recv.post", vid, verifName(root))
+				verifPoint("grow.send.pre", vid, verifName(root))
 				select {
 				case nodes <- root:
+					verifPoint("grow.send.post", vid, verifName(root))
 				case <-ctx.Done():
+					verifPoint("grow.send.ctx", vid, verifName(root))
 					return
 				}
 
